@@ -30,6 +30,13 @@ ASSUMPTIONS = [
 ]
 CASE_TIMEOUT = {"quick": 600, "thorough": 1800}
 
+# A target (other anchor + margin, real coordinate, extension target) that lies more than one whole cell away from
+# every interval / edge of the volume cannot be "snapped": the solver silently clamps the object into the volume
+# (e.g. `B.place_above(A)` with A touching the top wall puts B on top of A's cells).  The planned oracle (DESIGN C26)
+# minimises over the intervals that fit, so this is counted (branches['clamped'], worst['max_residual_cells']) and
+# not judged.  Set to True to judge it as a violation (mechanism "target-unreachable-clamped-into-volume").
+CLAMPED_IS_VIOLATION = False
+
 
 def EXHAUSTIVE(tier):
     return False  # the family is complete only in the thorough tier and the random part is sampled
@@ -43,7 +50,8 @@ def cases(tier, rng):
     if tier == "quick":
         stride, nblk, nrand, per, nplace = 3, 8, 20, 90, 2
     else:
-        stride, nblk, nrand, per, nplace = 1, 28, 150, 400, 10
+        stride, nblk, nrand, per, nplace = 1, 28, 260, 500, 14
+    out.append({"kind": "regression"})
     idx = list(range(0, n_fam, stride))
     blk = (len(idx) + nblk - 1) // nblk
     for b in range(nblk):
@@ -212,6 +220,14 @@ def judge(fdtdx, system, r, source, sig_extra=""):
     if st["ties"]:
         r.branch("ties", st["ties"])
     sig = f"{source}|{gk}|{sig_extra}|{_kinds(plain)}" if plain["constraints"] or _kinds(plain) else None
+    if CLAMPED_IS_VIOLATION and st["clamped_items"] and not V:
+        r.violate(
+            "placement succeeded although a target is more than one cell away from every admissible position",
+            {"system": plain, "slices": slices, "clamped": st["clamped_items"]},
+            mechanism="target-unreachable-clamped-into-volume",
+            sig=sig,
+        )
+        return ok, slices
     if not V:
         r.ok(sig)
         return ok, slices
@@ -278,6 +294,18 @@ def run_case(case):
                 r.branch("thin-axis")
             if ok and r.sample is None and len(system["objects"]) >= 3:
                 r.sample = {"system": G.strip_meta(system), "slices": sl}
+    elif case["kind"] == "regression":
+        # hand-written: a relation listed before / after the constraints that pin both of its objects
+        for gk in ("uniform", "rect_uniform", "nonuniform_b"):
+            for consistent in (True, False):
+                for rel_first in (True, False):
+                    system = G.pinned_pair_system(gk, consistent, rel_first)
+                    ok, _ = judge(fdtdx, system, r, "reg", f"pinned-pair|{'consistent' if consistent else 'conflict'}|{'rel-first' if rel_first else 'rel-last'}")
+                    r.branch(f"reg:{'consistent' if consistent else 'conflict'}:{'ok' if ok else 'fail'}")
+        for size_first in (True, False):
+            for conflict in (True, False):
+                ok, _ = judge(fdtdx, G.rpos_conflict_system(size_first, conflict), r, "reg", f"rpos|{'conflict' if conflict else 'consistent'}")
+                r.branch(f"reg:rpos:{'conflict' if conflict else 'consistent'}:{'ok' if ok else 'fail'}")
     else:
         _place(fdtdx, case, rng, r)
     return r.to_dict()
